@@ -450,12 +450,12 @@ Qed.
 Lemma extract_In rematch text hits t :
   In t (extract rematch text hits) <->
   exists s e a b, In (h_idx t, (s, e)) (translate text hits) /\
-    rematch (h_idx t) (slice text s e) = Some (a, b) /\
-    h_start t = s + a /\ h_end t = s + b /\ h_data t = slice (slice text s e) a b.
+    rematch (h_idx t) text s e = Some (a, b) /\
+    h_start t = a /\ h_end t = b /\ h_data t = slice text a b.
 Proof.
   unfold extract. rewrite in_flat_map. split.
   - intros ([idx [s e]] & Hin & H).
-    destruct (rematch idx (slice text s e)) as [[a b]|] eqn:E; [|destruct H].
+    destruct (rematch idx text s e) as [[a b]|] eqn:E; [|destruct H].
     destruct H as [<-|[]]. cbn. exists s, e, a, b. auto.
   - intros (s & e & a & b & Hin & E & H1 & H2 & H3).
     exists (h_idx t, (s, e)). split; [exact Hin|]. rewrite E. left.
@@ -465,32 +465,29 @@ Qed.
 (* every reported token indexes its own text, whatever Hyperscan reported *)
 Theorem extract_wf : forall rematch text hits t, valid_text text ->
   Forall (fun o => (o <= length (utf8 text))%nat) (hit_offsets hits) ->
-  (forall idx sub a b, rematch idx sub = Some (a, b) -> (a <= b <= length sub)%nat) ->
+  (forall idx s e a b, rematch idx text s e = Some (a, b) -> (a <= b <= e)%nat) ->
   In t (extract rematch text hits) ->
   (h_start t <= h_end t <= length text)%nat /\ h_data t = slice text (h_start t) (h_end t).
 Proof.
   intros rematch text hits t Hv Hf Hr Hin.
   apply extract_In in Hin. destruct Hin as (s & e & a & b & Hin & E & H1 & H2 & H3).
   apply (translate_spec text hits _ _ _ Hv Hf) in Hin. destruct Hin as (Hs & He & _).
-  pose proof (Hr _ _ _ _ E) as Hab.
-  rewrite H1, H2, H3. split.
-  - assert (length (slice text s e) <= length text - s)
-      by (unfold slice; rewrite firstn_length, skipn_length; lia).
-    lia.
-  - apply slice_slice. lia.
+  pose proof (Hr _ _ _ _ _ E) as Hab.
+  rewrite H1, H2, H3. split; [lia|reflexivity].
 Qed.
 
-(* every reported token comes from a hit and from a successful re-match of that extractor's pattern on the str slice *)
+(* every reported token comes from a hit and from a successful in-place re-match of that extractor's
+   pattern between the hit's character offsets *)
 Theorem extract_genuine : forall rematch text hits t, valid_text text ->
   Forall (fun o => (o <= length (utf8 text))%nat) (hit_offsets hits) ->
   In t (extract rematch text hits) ->
-  exists s e a b, In (h_idx t, (bpos text s, bpos text e)) hits /\ (s <= length text)%nat /\ (e <= length text)%nat /\
-    rematch (h_idx t) (slice text s e) = Some (a, b) /\ h_start t = (s + a)%nat /\ h_end t = (s + b)%nat.
+  exists s e, In (h_idx t, (bpos text s, bpos text e)) hits /\ (s <= length text)%nat /\ (e <= length text)%nat /\
+    rematch (h_idx t) text s e = Some (h_start t, h_end t).
 Proof.
   intros rematch text hits t Hv Hf Hin.
   apply extract_In in Hin. destruct Hin as (s & e & a & b & Hin & E & H1 & H2 & H3).
   apply (translate_spec text hits _ _ _ Hv Hf) in Hin. destruct Hin as (Hs & He & Hin).
-  exists s, e, a, b. auto 10.
+  exists s, e. rewrite H1, H2. auto 10.
 Qed.
 
 (* ================================================================== *)
